@@ -122,7 +122,17 @@ func (r *RequestContext) Request() *heimdall.Request {
 }
 
 func (r *RequestContext) Headers() map[string]string { return r.reqHeaders }
-func (r *RequestContext) Header(name string) string  { return r.reqHeaders[name] }
+
+// Header returns the value of the given header regardless of the spelling of its name. As with the HTTP
+// based services the host of the request is available as Host header.
+func (r *RequestContext) Header(name string) string {
+	key := http.CanonicalHeaderKey(name)
+	if key == "Host" {
+		return r.reqURL.Host
+	}
+
+	return r.reqHeaders[key]
+}
 
 func (r *RequestContext) Cookie(name string) string {
 	values, ok := r.reqHeaders["Cookie"]
